@@ -65,6 +65,8 @@ def main():
     ap.add_argument("--no-escalate", action="store_true")
     ap.add_argument("--escalate-budget", type=float, default=120.0)
     ap.add_argument("--no-write", action="store_true")
+    ap.add_argument("--from-log", help="merge the result lines of an earlier run's output")
+    ap.add_argument("--none", action="store_true", help="run nothing, only merge / render")
     a = ap.parse_args()
     items = []
     for patch in sorted(glob.glob(os.path.join(VERIF, "mutants", "*", "*.patch"))):
@@ -81,6 +83,8 @@ def main():
             continue
         if a.only and a.only not in name:
             continue
+        if a.none:
+            continue
         res = run_mutant(prop, patch, a.tier, a.budget)
         res["tier"] = a.tier
         if res["status"] == "MISSED" and a.tier == "quick" and not a.no_escalate:
@@ -92,8 +96,30 @@ def main():
                 res = res2
         rows.append((prop, name, res))
         print(prop, name, json.dumps(res), flush=True)
-    if not a.no_write and not a.props and not a.only:
+    # results are merged over runs (SENSITIVITY.json), so that changes added later can be run on their own
+    store = os.path.join(VERIF, "SENSITIVITY.json")
+    merged = {}
+    if os.path.exists(store):
+        with open(store) as f:
+            merged = json.load(f)
+    if a.from_log:
+        for line in open(a.from_log):
+            parts = line.split(" ", 2)
+            if len(parts) == 3 and parts[2].lstrip().startswith("{"):
+                try:
+                    merged[parts[1]] = {"prop": parts[0], "res": json.loads(parts[2])}
+                except ValueError:
+                    pass
+    for prop, name, res in rows:
+        merged[name] = {"prop": prop, "res": res}
+    present = {name for _, name, _ in items}
+    merged = {k: v for k, v in merged.items() if k in present}
+    if not a.no_write:
+        with open(store, "w") as f:
+            json.dump(merged, f, indent=1, sort_keys=True)
+        rows_all = [(v["prop"], k, v["res"]) for k, v in sorted(merged.items(), key=lambda kv: (kv[1]["prop"], kv[0]))]
         with open(os.path.join(VERIF, "SENSITIVITY.md"), "w") as f:
+            rows, rows_run = rows_all, rows
             f.write("# Sensitivity: which check catches which change\n\n")
             f.write(f"Tier: {a.tier}.  Each change is applied to a scratch copy of the library (UPSIM_REPO), the\n"
                     "check of its property is run, and the replay it reports is re-run on the unchanged tree (must pass).\n\n")
@@ -102,6 +128,9 @@ def main():
                 f.write(f"| {prop} | {name} | {res['status']} | {res.get('tier', '')} | {', '.join(res.get('oracles', []))} | "
                         f"{res.get('min_ops', '')} | {res.get('wall_s', '')} |\n")
     bad = [r for r in rows if r[2]["status"] != "caught"]
+    missing = sorted(present - set(merged)) if not a.no_write else []
+    if missing:
+        print("no result yet for:", ", ".join(missing))
     return 1 if bad else 0
 
 
